@@ -20,10 +20,10 @@ type BKV struct {
 	V BV
 }
 
-func BInt(i int64) BV    { return BV{Kind: 'i', I: i} }
-func BStr(s string) BV   { return BV{Kind: 's', S: s} }
-func BList(l ...BV) BV   { return BV{Kind: 'l', L: l} }
-func BDict(d ...BKV) BV  { return BV{Kind: 'd', D: d} }
+func BInt(i int64) BV   { return BV{Kind: 'i', I: i} }
+func BStr(s string) BV  { return BV{Kind: 's', S: s} }
+func BList(l ...BV) BV  { return BV{Kind: 'l', L: l} }
+func BDict(d ...BKV) BV { return BV{Kind: 'd', D: d} }
 
 // Get returns the value under key k of a dictionary.
 func (v BV) Get(k string) (BV, bool) {
